@@ -65,10 +65,16 @@ class World:
         return self.ev("Layout(origin=o, extent=e, padding=p, alignment=a)", o=o, e=e, p=p, a=a)
 
     def settings(self, lay, relativize, fit, vw, vh):
-        me = Stub("writer", {"relativize": relativize, "fit_to_screen": fit, "video_width": vw, "video_height": vh},
-                  cls=self.fn.cls)
+        # the writer is built by its own constructor from the public options (so that what the constructor makes of them counts)
+        me = Stub("writer", {}, cls=self.fn.cls)
+        init = self.fn.cls.find_method("__init__")
         self.n += 1
         try:
+            if init is not None:
+                self.F.call_function(init, [], {"relativize": relativize, "fit_to_screen": fit, "video_width": vw, "video_height": vh},
+                                     self_value=me)
+            else:
+                me.attrs.update({"relativize": relativize, "fit_to_screen": fit, "video_width": vw, "video_height": vh})
             return self.F.call_function(self.fn, [lay], {}, self_value=me)
         except FoldRaise as e:
             return ("raise", e.exc_name)
@@ -130,7 +136,9 @@ def explore(ctx, thorough):
     Wd = World(ctx)
     bad = {"raise": [], "units": [], "arith": [], "align": [], "fit": [], "mutated": []}
     origins = [((10, "%"), (20, "%")), ((64, "px"), (36, "px")), ((2, "em"), (1, "em")), ((12, "pt"), (27, "pt")),
-               ((8, "c"), (3, "c")), ((33.333, "%"), (12.5, "%"))]
+               ((8, "c"), (3, "c")), ((33.333, "%"), (12.5, "%")),
+               # lengths with three decimals in units whose conversion factor magnifies the third one
+               ((2.345, "c"), (1.004, "c")), ((0.555, "em"), (3.126, "em"))]
     extents = [None, ((50, "%"), (10, "%")), ((320, "px"), (36, "px")), ((85, "%"), (90, "%"))]
     paddings = [None, ((5, "%"), (5, "%"), (2, "%"), (3, "%")), ((18, "px"), (18, "px"), (32, "px"), (16, "px"))]
     aligns = [None, "LEFT", "CENTER", "RIGHT", "START", "END", "VERTICAL-ONLY"]
